@@ -242,7 +242,10 @@ func genC05(r *kit.RNG) *C05Scenario {
 			}
 			hasCookie := false
 			for j, m := 0, r.Intn(3); j < m; j++ {
-				k := r.Intn(8)
+				k := r.Intn(9)
+				if k == 8 && !r.Chance(0.4) {
+					k = 5
+				}
 				if k == 0 || k == 1 || k == 7 {
 					if hasCookie {
 						continue // one COOKIE option per query (RFC 7873 §5.2 leaves several undefined)
@@ -264,6 +267,8 @@ func genC05(r *kit.RNG) *C05Scenario {
 					op.Opts = append(op.Opts, C05Opt{Code: dns.EDNS0SUBNET, Hex: "00011800c00002"}) // 192.0.2.0/24
 				case 6:
 					op.Opts = append(op.Opts, C05Opt{Code: 65001, Hex: "cafe"})
+				case 8: // client subnet with a scope length beyond the family's address length: the packet does not decode
+					op.Opts = append(op.Opts, C05Opt{Code: dns.EDNS0SUBNET, Hex: kit.Pick(r, []string{"00011821c00002", "000118ffc00002", "0002388120010db8000001"})})
 				default:
 					op.Opts = append(op.Opts, C05Opt{Code: dns.EDNS0COOKIE, Hex: "0102"}) // malformed cookie length
 				}
@@ -526,6 +531,19 @@ func runC05(sc *C05Scenario, tr *kit.Trace) *kit.Result {
 	}
 	hits, oneApart := 0, 0
 	for i, op := range sc.Ops {
+		if new(dns.Msg).Unpack(c05Packet(op, i)) != nil {
+			// The library cannot decode this packet, so the decoded path never sees it: the
+			// transport owes the client a bare FORMERR. The wire path must come to the same
+			// verdict on the same bytes (it has its own parser), not answer or drop it.
+			w := wire[i]
+			if len(w) < 12 || w[3]&0xf != dns.RcodeFormatError || w[6]|w[7]|w[8]|w[9] != 0 {
+				res.Fail("C05/paths-differ", "op %d (%s/%s opts=%v): the packet does not decode, so the decoded ingress answers FORMERR; the wire ingress sent %s",
+					i, c05Names[op.Name%len(c05Names)], dns.TypeToString[op.Type], op.Opts, c05Norm(w))
+				return res
+			}
+			res.Probes["undecodable-packet-formerr-on-both"]++
+			continue
+		}
 		a, b := c05Norm(wire[i]), c05Norm(dec[i])
 		if a != b && c05TTLsWithinOne(a, b) && oneApart == 0 {
 			// once per scenario: a path that is systematically a second off shows it in every hit
